@@ -61,7 +61,7 @@ static int spec_parent(int s)
 #elif TOPO == 1
     pp = p - 1;
 #else
-    pp = 0; for (int b = 0; b < 4; b++) if (p & (1 << b)) pp = p ^ (1 << b);   /* NR <= 16 */
+    pp = (p >= 8) ? p - 8 : (p >= 4) ? p - 4 : (p >= 2) ? p - 2 : 0;           /* clear the leftmost 1 bit; NR <= 16 */
 #endif
     if (pp <= 0) return root;
     for (int r = 0; r < NR; r++) if (first[r] == first[s] && pos[r] == pp) return r;
